@@ -518,4 +518,188 @@ decreasing_by
     have : sizeOf kv.2 < sizeOf kv := by cases kv; simp; omega
     simp; omega
 
+-- ------------------------------------------------------------------ the parser's string lexing = the reference reading
+
+/-! `lexQuoted` (grammar scan `scanStr`, then `string_value`) against `lexString`, on every text.
+    Ingredients: the two hex-digit readings agree on hex digits, the grammar's surrogate guard
+    (`hex4ok`) is exactly "the four digits denote a Unicode scalar value", the two escape tables
+    have the same domain; then one step of each function at a time. -/
+
+theorem hexq_of_isHex (c : Char) (h : isHex c = true) : hexVal? c = some (hexVal c) := by
+  simp only [isHex, hexVal?, hexVal, Bool.or_eq_true, Bool.and_eq_true, decide_eq_true_eq] at *
+  repeat' split
+  all_goals first | rfl | omega | (congr 1; omega) | skip
+
+theorem hexq_of_not_isHex (c : Char) (h : isHex c = false) : hexVal? c = none := by
+  simp only [isHex, hexVal?, Bool.or_eq_false_iff, Bool.and_eq_false_iff, decide_eq_false_iff_not, Bool.and_eq_true, decide_eq_true_eq] at *
+  repeat' split
+  all_goals first | rfl | omega | skip
+
+theorem hexVal_lt (c : Char) (h : isHex c = true) : hexVal c < 16 := by
+  simp only [isHex, hexVal, Bool.or_eq_true, Bool.and_eq_true, decide_eq_true_eq] at *
+  repeat' split
+  all_goals omega
+
+theorem char_eq_iff (c d : Char) : c = d ↔ c.toNat = d.toNat := by
+  constructor
+  · intro h; rw [h]
+  · intro h
+    apply Char.ext
+    apply UInt32.toNat_inj.mp
+    exact h
+
+theorem isD_iff (c : Char) (h : isHex c = true) :
+    (decide (c = 'd') || decide (c = 'D')) = decide (hexVal c = 13) := by
+  have e1 : 'd'.toNat = 100 := by decide
+  have e2 : 'D'.toNat = 68 := by decide
+  have h' := h
+  simp only [isHex, Bool.or_eq_true, Bool.and_eq_true, decide_eq_true_eq] at h'
+  rw [Bool.eq_iff_iff]
+  simp only [hexVal, Bool.or_eq_true, decide_eq_true_eq, char_eq_iff, e1, e2]
+  repeat' split
+  all_goals (simp only [decide_eq_true_eq]; omega)
+
+theorem isHi_iff (c : Char) (h : isHex c = true) :
+    (decide (c = '8') || decide (c = '9') || (decide (97 ≤ c.toNat) && decide (c.toNat ≤ 102)) ||
+      (decide (65 ≤ c.toNat) && decide (c.toNat ≤ 70))) = decide (8 ≤ hexVal c) := by
+  have e1 : '8'.toNat = 56 := by decide
+  have e2 : '9'.toNat = 57 := by decide
+  simp only [isHex, Bool.or_eq_true, Bool.and_eq_true, decide_eq_true_eq] at h
+  rw [Bool.eq_iff_iff]
+  simp only [hexVal, Bool.or_eq_true, Bool.and_eq_true, decide_eq_true_eq, char_eq_iff, e1, e2]
+  repeat' split
+  all_goals (simp only [decide_eq_true_eq]; omega)
+
+theorem hex4ok_valid (h1 h2 h3 h4 : Char) (a1 : isHex h1 = true) (a2 : isHex h2 = true)
+    (a3 : isHex h3 = true) (a4 : isHex h4 = true) :
+    hex4ok h1 h2 h3 h4 = true ↔ (((hexVal h1 * 16 + hexVal h2) * 16 + hexVal h3) * 16 + hexVal h4).isValidChar := by
+  have b1 := hexVal_lt h1 a1
+  have b2 := hexVal_lt h2 a2
+  have b3 := hexVal_lt h3 a3
+  have b4 := hexVal_lt h4 a4
+  simp only [hex4ok, a1, a2, a3, a4, Bool.and_true, isD_iff h1 a1, isHi_iff h2 a2]
+  generalize hexVal h1 = x1 at *
+  generalize hexVal h2 = x2 at *
+  generalize hexVal h3 = x3 at *
+  generalize hexVal h4 = x4 at *
+  simp only [Nat.isValidChar, Bool.not_eq_true', Bool.and_eq_false_iff, decide_eq_false_iff_not]
+  omega
+
+theorem isSimpleEsc_escaped (e : Char) : isSimpleEsc e = (escaped e).isSome := by
+  simp only [isSimpleEsc, escaped]
+  repeat' split
+  all_goals simp_all
+
+theorem sv_plain (c : Char) (raw : List Char) (hb : c ≠ '\\') :
+    stringValue (c :: raw) = (stringValue raw).map (c :: ·) := by
+  rw [stringValue.eq_def]; simp [hb]
+
+theorem sv_simple (e x : Char) (raw : List Char) (hx : escaped e = some x) :
+    stringValue ('\\' :: e :: raw) = (stringValue raw).map (x :: ·) := by
+  have hu : e ≠ 'u' := by
+    have hnone : escaped 'u' = none := by decide
+    intro h; subst h; simp [hnone] at hx
+  rw [stringValue.eq_def]
+  simp only [if_true, hu, if_false]
+  simp only [escaped] at hx
+  repeat' split at hx
+  all_goals first | (cases hx; simp_all; done) | (subst hx; simp_all; done) | simp_all
+
+theorem sv_u (h1 h2 h3 h4 : Char) (raw : List Char) (a1 : isHex h1 = true) (a2 : isHex h2 = true)
+    (a3 : isHex h3 = true) (a4 : isHex h4 = true)
+    (hv : (((hexVal h1 * 16 + hexVal h2) * 16 + hexVal h3) * 16 + hexVal h4).isValidChar) :
+    stringValue ('\\' :: 'u' :: h1 :: h2 :: h3 :: h4 :: raw) =
+      (stringValue raw).map (Char.ofNat (((hexVal h1 * 16 + hexVal h2) * 16 + hexVal h3) * 16 + hexVal h4) :: ·) := by
+  rw [stringValue.eq_def]
+  simp [a1, a2, a3, a4, hv]
+
+theorem lexString_eq_lexQuoted_aux : ∀ (n : Nat) (cs : List Char), cs.length ≤ n → lexString cs = lexQuoted cs := by
+  intro n
+  induction n with
+  | zero =>
+    intro cs h
+    have : cs = [] := by cases cs <;> simp_all
+    subst this
+    rw [lexString.eq_def, lexQuoted, scanStr.eq_def]
+  | succ n ih =>
+    intro cs h
+    cases cs with
+    | nil => rw [lexString.eq_def, lexQuoted, scanStr.eq_def]
+    | cons c r =>
+      rw [lexString.eq_def, lexQuoted, scanStr.eq_def]
+      simp only
+      by_cases hq : c = '"'
+      · simp [hq, stringValue]
+      · by_cases hn : c = '\n' ∨ c = '\r'
+        · rcases hn with hn | hn <;> subst hn <;> simp
+        · simp only [not_or] at hn
+          by_cases hb : c = '\\'
+          · subst hb
+            have hbq : ¬ ('\\' = '"') := by decide
+            have hbn : ¬ ('\\' = '\n') := by decide
+            have hbr : ¬ ('\\' = '\r') := by decide
+            simp only [hbq, hbn, hbr, if_false, if_true, Bool.or_self, decide_false, Bool.false_eq_true]
+            cases r with
+            | nil => rfl
+            | cons e r' =>
+              simp only
+              by_cases hu : e = 'u'
+              · subst hu
+                have hs : isSimpleEsc 'u' = false := by decide
+                simp only [hs, if_true, Bool.false_eq_true, if_false]
+                rcases r' with _ | ⟨h1, _ | ⟨h2, _ | ⟨h3, _ | ⟨h4, r''⟩⟩⟩⟩
+                · rfl
+                · rfl
+                · rfl
+                · rfl
+                · simp only
+                  by_cases hall : isHex h1 = true ∧ isHex h2 = true ∧ isHex h3 = true ∧ isHex h4 = true
+                  · obtain ⟨a1, a2, a3, a4⟩ := hall
+                    simp only [hexq_of_isHex _ a1, hexq_of_isHex _ a2, hexq_of_isHex _ a3, hexq_of_isHex _ a4]
+                    by_cases hv : (((hexVal h1 * 16 + hexVal h2) * 16 + hexVal h3) * 16 + hexVal h4).isValidChar
+                    · have hk := (hex4ok_valid h1 h2 h3 h4 a1 a2 a3 a4).mpr hv
+                      have ihr := ih r'' (by simp at h; omega)
+                      simp only [hv, hk, if_true, ihr, lexQuoted]
+                      cases scanStr r'' with
+                      | none => rfl
+                      | some p =>
+                        obtain ⟨raw, rest⟩ := p
+                        simp only [sv_u h1 h2 h3 h4 raw a1 a2 a3 a4 hv]
+                        cases stringValue raw <;> rfl
+                    · have hk : hex4ok h1 h2 h3 h4 = false := by
+                        cases hh : hex4ok h1 h2 h3 h4
+                        · rfl
+                        · exact absurd ((hex4ok_valid h1 h2 h3 h4 a1 a2 a3 a4).mp hh) hv
+                      simp only [hv, hk, if_false, Bool.false_eq_true]
+                  · have hk : hex4ok h1 h2 h3 h4 = false := by
+                      simp only [hex4ok]
+                      simp only [Classical.not_and_iff_not_or_not, Bool.not_eq_true] at hall
+                      rcases hall with a | a | a | a <;> simp [a]
+                    simp only [hk, Bool.false_eq_true, if_false]
+                    simp only [Classical.not_and_iff_not_or_not, Bool.not_eq_true] at hall
+                    rcases hall with a | a | a | a <;> simp only [hexq_of_not_isHex _ a] <;> (repeat' split) <;> simp_all
+              · simp only [hu, if_false, isSimpleEsc_escaped]
+                cases hx : escaped e with
+                | none => simp
+                | some x =>
+                  have ihr := ih r' (by simp at h; omega)
+                  simp only [Option.isSome_some, if_true, ihr, lexQuoted]
+                  cases scanStr r' with
+                  | none => rfl
+                  | some p =>
+                    obtain ⟨raw, rest⟩ := p
+                    simp only [sv_simple e x raw hx]
+                    cases stringValue raw <;> rfl
+          · have ihr := ih r (by simp at h; omega)
+            simp only [hq, hn.1, hn.2, hb, if_false, Bool.or_self, decide_false, Bool.false_eq_true, ihr, lexQuoted]
+            cases scanStr r with
+            | none => rfl
+            | some p =>
+              obtain ⟨raw, rest⟩ := p
+              simp only [sv_plain c raw hb]
+              cases stringValue raw <;> rfl
+
+theorem lexString_eq_lexQuoted (cs : List Char) : lexString cs = lexQuoted cs :=
+  lexString_eq_lexQuoted_aux cs.length cs (Nat.le_refl _)
+
 end AGV.Lemmas.Literal
